@@ -124,6 +124,9 @@ Definition shut_obs (pos : string) (k : N) (shutdown release_first : bool) : val
     else if String.eqb pos "in_handler" then mk I_REQUEST true false
     else if String.eqb pos "reply_to_closed_peer" then mk I_REQUEST true false
     else if String.eqb pos "after_reply" then mk I_NONE false false
+    (* the peer never reads: the thread is blocked writing a reply.  The model has no notion of a full socket; a thread
+       that is serving a request stands for it (the request for shutdown must end either) *)
+    else if String.eqb pos "reply_blocked" then mk I_REQUEST false false
     else if String.eqb pos "peer_closed" then mk I_NONE false true
     else if String.eqb pos "peer_closed_partial" then mk (if k <? 12 then I_PARTIAL_HDR else I_HDR_ONLY) false true
     (* the peer closed only its sending side: end of input for the daemon thread, but the peer still reads *)
